@@ -3,9 +3,9 @@ import vlib
 from props import arbgen, arbprop
 
 PROP = "C01"
-PROPS_FILES = ["Nic/Props/C01.lean", "Nic/Props/TieArb.lean"]
+PROPS_FILES = ["Nic/Props/C01.lean", "Nic/Props/TieArb.lean", "Nic/Props/TieRes.lean"]
 # Go functions translated from /repo on every run (tools/gofn) and proved equal to the model in the Tie file above
-TIE_FUNCS = ['internal/k8s/configuration.go:chooseObjectMetaWinner', 'internal/k8s/configuration.go:compareObjectMetas', 'internal/k8s/configuration.go:compareObjectMetasWithAnnotations', 'internal/k8s/configuration.go:getResourceKey', 'internal/k8s/configuration.go:getResourceKeyWithKind', 'internal/k8s/utils.go:isMinion', 'internal/k8s/utils.go:isMaster', 'pkg/apis/configuration/validation/virtualserver.go:isRegexOrExactMatch', 'pkg/apis/configuration/validation/globalconfiguration.go:generatePortProtocolKey']
+TIE_FUNCS = ['internal/k8s/configuration.go:chooseObjectMetaWinner', 'internal/k8s/configuration.go:compareObjectMetas', 'internal/k8s/configuration.go:compareObjectMetasWithAnnotations', 'internal/k8s/configuration.go:getResourceKey', 'internal/k8s/configuration.go:getResourceKeyWithKind', 'internal/k8s/utils.go:isMinion', 'internal/k8s/utils.go:isMaster', 'pkg/apis/configuration/validation/virtualserver.go:isRegexOrExactMatch', 'pkg/apis/configuration/validation/globalconfiguration.go:generatePortProtocolKey', 'internal/k8s/configuration.go:IngressConfiguration.GetObjectMeta', 'internal/k8s/configuration.go:VirtualServerConfiguration.GetObjectMeta', 'internal/k8s/configuration.go:TransportServerConfiguration.GetObjectMeta', 'internal/k8s/configuration.go:dispatch:Resource.GetObjectMeta', 'internal/k8s/configuration.go:IngressConfiguration.GetKeyWithKind', 'internal/k8s/configuration.go:VirtualServerConfiguration.GetKeyWithKind', 'internal/k8s/configuration.go:TransportServerConfiguration.GetKeyWithKind', 'internal/k8s/configuration.go:IngressConfiguration.Wins', 'internal/k8s/configuration.go:VirtualServerConfiguration.Wins', 'internal/k8s/configuration.go:TransportServerConfiguration.Wins', 'internal/k8s/configuration.go:IngressConfiguration.IsEqual', 'internal/k8s/configuration.go:VirtualServerConfiguration.IsEqual', 'internal/k8s/configuration.go:TransportServerConfiguration.IsEqual', 'internal/k8s/configuration.go:type MinionConfiguration', 'internal/k8s/configuration.go:type IngressConfiguration', 'internal/k8s/configuration.go:type VirtualServerConfiguration', 'internal/k8s/configuration.go:type TransportServerConfiguration']
 HARNESS = "vh-k8s"
 RULE = ("histories (2..12 ops; thorough: up to 30 and all permutations of short ones) of add/update/delete/invalidate/class-change "
         "events over regular/master/minion/challenge Ingresses, VirtualServers, VirtualServerRoutes, TransportServers (passthrough, TCP, UDP) "
